@@ -2345,4 +2345,102 @@ theorem runWired_allOf (n : Node) (σ : St) : runWired .allOf n σ = run n σ :=
   | mac args body rets oh s =>
     simp only [runWired, run, startCount_allOf, iterBody_one]
 
+
+/-! ## refused assignments: all or nothing along the chain of value links -/
+
+theorem St.graft_set_comm (σ τ : St) (j : Nat) (p : Pan) (k : Nat) (v : Val) :
+    (σ.graft j τ).set p k v = (σ.set p k v).graft j τ := by
+  apply St.ext'
+  intro q p' k'
+  cases q with
+  | nil => simp [St.set, St.graft]
+  | cons a r => by_cases h : a = j <;> simp [St.set, St.graft, h]
+
+theorem setInKid_set_comm (ns : List Node) (base j i : Nat) (v : Val) (σ : St) (k : Nat) (w : Val) :
+    setInKid ns base j i v (σ.set .inp k w) = (setInKid ns base j i v σ).set .inp k w := by
+  induction ns generalizing base j with
+  | nil => simp [setInKid]
+  | cons n ns ih =>
+    cases j with
+    | zero => simp only [setInKid, St.sub_set]; rw [St.graft_set_comm]
+    | succ j => simp only [setInKid]; exact ih (base + 1) j
+
+mutual
+/-- forward before store: a refusal anywhere down the chain leaves EVERY channel as it was -/
+theorem pushIn_refused (lk : Path → Bool) : ∀ (p : Path) (n : Node) (σ : St) (k : Nat) (v : Val),
+    (pushIn false lk p n σ k v).2 = false → (pushIn false lk p n σ k v).1 = σ
+  | p, .leaf _ _, σ, k, v, h => by
+    simp only [pushIn] at h ⊢
+    split at h <;> simp_all
+  | p, .mac args body rets oh s, σ, k, v, h => by
+    simp only [pushIn] at h ⊢
+    split
+    · rfl
+    · rename_i hl
+      simp only [hl, if_false] at h
+      split
+      · rfl
+      · rename_i ha
+        simp only [ha, if_false] at h
+        cases hlk : link body rets k with
+        | ui => simp [hlk] at h
+        | gone => simp [hlk] at h
+        | child j i =>
+          simp only [hlk, Bool.false_eq_true, if_false] at h ⊢
+          by_cases hr : (pushKid false lk p body 0 j i v σ).2 = true
+          · simp [hr] at h
+          · have hr' : (pushKid false lk p body 0 j i v σ).2 = false := by simpa using hr
+            simp only [hr', Bool.false_eq_true, if_false]
+            exact pushKid_refused lk p body 0 j i v σ hr'
+theorem pushKid_refused (lk : Path → Bool) (p : Path) : ∀ (ns : List Node) (base j i : Nat) (v : Val) (σ : St),
+    (pushKid false lk p ns base j i v σ).2 = false → (pushKid false lk p ns base j i v σ).1 = σ
+  | [], _, _, _, _, σ, h => by simp [pushKid] at h
+  | n :: _, base, 0, i, v, σ, h => by
+    simp only [pushKid] at h ⊢
+    rw [pushIn_refused lk (p ++ [base]) n (σ.sub base) i v h]
+    exact St.graft_sub_self σ base
+  | _ :: ns, base, j + 1, i, v, σ, h => by
+    simp only [pushKid] at h ⊢
+    exact pushKid_refused lk p ns (base + 1) j i v σ h
+end
+
+mutual
+/-- an accepted assignment is the forwarding setter of the model -/
+theorem pushIn_accepted (lk : Path → Bool) : ∀ (p : Path) (n : Node) (σ : St) (k : Nat) (v : Val),
+    (pushIn false lk p n σ k v).2 = true → (pushIn false lk p n σ k v).1 = setIn n σ k v
+  | p, .leaf _ _, σ, k, v, h => by
+    simp only [pushIn] at h ⊢
+    split at h <;> simp_all [setIn]
+  | p, .mac args body rets oh s, σ, k, v, h => by
+    simp only [pushIn] at h ⊢
+    split
+    · rename_i hl; simp [hl] at h
+    · rename_i hl
+      simp only [hl, if_false] at h
+      split
+      · rename_i ha; simp_all
+      · rename_i ha
+        simp only [ha, if_false] at h
+        cases hlk : link body rets k with
+        | ui => simp [setIn, hlk]
+        | gone => simp [setIn, hlk]
+        | child j i =>
+          simp only [hlk, Bool.false_eq_true, if_false] at h ⊢
+          by_cases hr : (pushKid false lk p body 0 j i v σ).2 = true
+          · simp only [hr, if_true]
+            rw [pushKid_accepted lk p body 0 j i v σ hr]
+            simp [setIn, hlk, setInKid_set_comm]
+          · simp [hr] at h
+theorem pushKid_accepted (lk : Path → Bool) (p : Path) : ∀ (ns : List Node) (base j i : Nat) (v : Val) (σ : St),
+    (pushKid false lk p ns base j i v σ).2 = true → (pushKid false lk p ns base j i v σ).1 = setInKid ns base j i v σ
+  | [], _, _, _, _, σ, _ => by simp [pushKid, setInKid]
+  | n :: _, base, 0, i, v, σ, h => by
+    simp only [pushKid] at h ⊢
+    rw [pushIn_accepted lk (p ++ [base]) n (σ.sub base) i v h]
+    simp [setInKid]
+  | _ :: ns, base, j + 1, i, v, σ, h => by
+    simp only [pushKid, setInKid] at h ⊢
+    exact pushKid_accepted lk p ns (base + 1) j i v σ h
+end
+
 end PwVerif.Macro
